@@ -153,14 +153,16 @@ type viol struct {
 }
 
 type result struct {
-	Cases         int    `json:"cases"`
-	Stacks        int    `json:"stacks_built"`
-	SharedParents int    `json:"stacks_with_a_child_shared_with_another_stack"`
-	Drives        int    `json:"drives"`
-	Events        int    `json:"events_received"`
-	MaxDepth      int    `json:"max_nesting_depth"`
-	Concurrent    int    `json:"cases_with_concurrent_derivation"`
-	Reused        int    `json:"stacks_built_again_from_the_same_argument_slice"`
+	Cases         int `json:"cases"`
+	Stacks        int `json:"stacks_built"`
+	SharedParents int `json:"stacks_with_a_child_shared_with_another_stack"`
+	Drives        int `json:"drives"`
+	Events        int `json:"events_received"`
+	MaxDepth      int `json:"max_nesting_depth"`
+	Concurrent    int `json:"cases_with_concurrent_derivation"`
+	Reused        int `json:"stacks_built_again_from_the_same_argument_slice"`
+	Distinct      int `json:"distinct_constructions"` // distinct construction descriptions with at least two stacks
+	distinct      map[uint64]struct{}
 	Viols         []viol `json:"viols,omitempty"`
 }
 
@@ -390,6 +392,18 @@ func runCase(seed uint64, idx int, res *result) {
 		}
 	}
 	stacks = append(stacks, reused...)
+	if len(stacks) >= 2 {
+		h := uint64(1469598103934665603)
+		for _, c := range []byte(fmt.Sprint(nLeaves, desc)) {
+			h ^= uint64(c)
+			h *= 1099511628211
+		}
+		if res.distinct == nil {
+			res.distinct = map[uint64]struct{}{}
+		}
+		res.distinct[h] = struct{}{}
+		res.Distinct = len(res.distinct)
+	}
 	// drive every stack (and some leaves directly), in random order
 	order := r.Perm(len(stacks))
 	want := map[int]map[int][]ev{} // leaf -> drive -> events
